@@ -1,7 +1,7 @@
 """C20 — tera-contrib codecs (partial): percent-encode sets evaluated at compile time, base64 alphabet agreement, json delegation."""
 import binascii
 from engine import (Tracer, EdgeFacts, find_calls, find_aggs, AnchorMissing, leaf_str, leaf_call_is, callee_def, callee_names, name_matches,
-                    iter_operands, pl_str)
+                    iter_operands, pl_str, kwarg_locals)
 
 EXPLANATION = (
     "Decides, from the compile-time-evaluated constants and the MIR of tera-contrib: (URL) the percent-encode set handed to percent_encode by "
@@ -124,8 +124,8 @@ def check_b64(crate, rep, tag=""):
                     engines[bb] = names[0].rsplit("::", 1)[-1]
                     enc_bytes[engines[bb]] = binascii.unhexlify(op.get("pb") or "")
     rep.floor("C20.B64", "engine constants used by b64_encode%s" % tag, len(engines), 4)
-    us = set(enc.locals_named("url_safe"))
-    pd = set(enc.locals_named("padded"))
+    us = kwarg_locals(enc, "url_safe")
+    pd = kwarg_locals(enc, "padded")
 
     def conds(bb):
         """(url_safe, padded) truth implied by dominating switch edges on the tuple of the two bools"""
@@ -173,7 +173,7 @@ def check_b64(crate, rep, tag=""):
             eng, "standard" if alpha is STD_ALPHABET else "url-safe") + ("" if ok else " — VIOLATED"))
     # decode: const per url_safe, alphabets by value
     efd = EdgeFacts(dec, crate)
-    dus = set(dec.locals_named("url_safe"))
+    dus = kwarg_locals(dec, "url_safe")
     used = {}
     for bb, idx, s in dec.stmts():
         for op in iter_operands(s):
